@@ -144,7 +144,8 @@ def main(run):
         if typ in ("float", "np64", "np32") and shape in ("random", "negative"):
             vals = [v / 4 for v in vals]         # quarter steps stay exact in float32
         if typ in ("float", "np64", "np32", "Q") and rnd.random() < 0.4:
-            scl = rnd.choice([2.0 ** -40, 2.0 ** -70, 2.0 ** 50])       # tiny / huge absolute scale (exact power of two)
+            scl = rnd.choice([2.0 ** -40, 2.0 ** -70, 2.0 ** 50] + ([2.0 ** -1040, 2.0 ** -1060] if typ in ("float", "np64", "Q") else []))
+            # tiny (down to subnormal) / huge absolute scale, exact power of two
             vals = [(Q(v) * Q(scl) if typ == "Q" else v * scl) for v in vals]
             shape += "-scaled"
         seed = rnd.randrange(2 ** 31)
